@@ -32,7 +32,7 @@ def plan(tier, seed):
         for k in range(2 if q else 4):
             specs.append({"stratum": f"{f}-clean", "format": f, "n": n, "k": k, "clean": True})
         if f == "yaml":
-            specs.append({"stratum": f"{f}-full", "format": f, "n": n, "k": 9})
+            specs.append({"stratum": f"{f}-with-empty-containers", "format": f, "n": n, "k": 9, "clean": True})
     if not q:
         for k in range(8):
             specs.append({"stratum": "json-all-bmp-codepoints", "format": "json", "sweep": True, "k": k, "of": 8, "clean": True,
@@ -260,10 +260,6 @@ def check(case, ctx):
 
 
 def classify(case, diag):
-    f, doc = case["format"], case["doc"]
-    if f == "yaml" and diag["kind"] in ("printed-text-loads-to-another-document", "printed-text-rejected-by-loader", "printing-raised"):
-        if _has_empty_container(doc):
-            return "yaml-empty-container-printed-as-nothing"
     return None
 
 
